@@ -23,7 +23,9 @@ EXPLANATION = (
     'reason. R2: the in-progress marker of every provisional source is reset on every exit path. R3: '
     'lint, EvalCtx._evaluate and EvalCtx.declarations obtain the table of a read through '
     "names_at(np(read)) of the read's own region (one resolution path). R4: memo getters take no "
-    'request-specific argument. Equality of answers under concrete query orders is NOT decided.')
+    'request-specific argument. R5: the memo sites on call cycles through EvalCtx.evaluate and the readers of the '
+    'partial-table memos are compared with the sets triaged on the reference tree; a new one is reported. Equality of '
+    'answers under concrete query orders is NOT decided.')
 TECHNIQUE = 'memo-site inventory + typed call-graph cycle analysis through re-entrancy-guarded functions'
 
 SCOPE = 'supp/scope.py'
@@ -101,6 +103,62 @@ EXCLUDED_GUARDS = {
 }
 
 
+# memo sites on (typed or name-based) call cycles through EvalCtx.evaluate, triaged by reading on the reference tree.
+# The guard of evaluate is keyed by node and fires only for genuinely cyclic definitions; each of these memos was read
+# and no pair of query orders giving different answers could be constructed.  A memo site that is *not* on this list
+# and appears on such a cycle has not been triaged: it is reported (the instances confirmed on the reference tree
+# are the reference for any later change).
+TRIAGED_EVAL_MEMOS = {
+    'ArgumentName.resolve': 'first parameter of a method -> memoised instance of its class (no evaluate on the way back)',
+    'AssignedAttribute.resolve': 'value of a self-assignment; cyclic only for self.x = self.x style definitions',
+    'ClassObject._attrs': 'class table; bases are complete before the merge',
+    'ClassObject.bases': 'base expressions are evaluated once per class object',
+    'FuncObject.call': 'single-return value; the FuncObject itself is created per evaluation (FuncScope.resolve is not memoised), '
+                       'so a value computed under the guard dies with the request',
+    'ImportedName.resolve': 'module / attribute lookup (no evaluate of the importing file)',
+    'InstanceValue._assigned_attrs': 'instance assignments along the bases',
+    'InstanceValue._attrs': 'instance table',
+    'MultiValue.get_rvalues': 'values of self-assignments',
+    'SourceScope.assigns': 'grouping of attribute assignments by receiver',
+}
+
+# functions that read a memo which can hold a partial table (C04-R1 known findings), confirmed on the reference tree.
+# A new reader spreads the partial table to a new place and is reported.
+PARTIAL_MEMO_READERS = {
+    'Flow.names': {'ClassObject._cls_attrs', 'Flow.parent_names', 'FuncScope.names', 'LoopFlow.names', 'SourceScope.names'},
+    'Flow.parent_names': {'Flow.names', 'Flow.names_at'},
+}
+
+
+def rule_memo_inventory(repo, res, rule):
+    cg = get_callgraph(repo)
+    facts = get_facts(repo)
+    sites = memo_sites(repo)
+    g = 'supp/evaluator.py:EvalCtx.evaluate'
+    if g not in cg.edges:
+        raise AnalysisError('EvalCtx.evaluate vanished')
+    fr = cg.reach(g, False)
+    on = sorted({s['fi'].qual: s for s in sites if s['key'] in fr and g in cg.reach(s['key'], False)}.items())
+    for q, s in on:
+        res.check(rule, 'memo %s on an evaluation cycle' % q, q in TRIAGED_EVAL_MEMOS, s['fi'].rel, s['fi'].node.lineno,
+                  '%s (%s) memoises a value computed on a call cycle through EvalCtx.evaluate, whose re-entrancy guard returns '
+                  'None for a node already under evaluation; it is not among the memo sites triaged on the reference tree: a '
+                  'value computed under the guard may be kept and served to later queries (which query comes first decides)'
+                  % (q, s['kind']), sample='%s: %s' % (q, TRIAGED_EVAL_MEMOS.get(q)))
+    res.count('memo_sites_on_evaluation_cycles', len(on), floor=8)
+    for memo, known in sorted(PARTIAL_MEMO_READERS.items()):
+        key = [k for k, fi in facts.funcs.items() if fi.qual == memo]
+        if not key:
+            continue
+        readers = sorted({facts.funcs[k].qual for k in cg.edges if any(c == key[0] and t for c, t, n in cg.edges[k])})
+        for r in readers:
+            res.check(rule, '%s reads %s' % (r, memo), r in known, 'supp/scope.py', 0,
+                      '%s reads the memo %s, which can hold a table computed while a loop back edge was unresolved (C04-R1); '
+                      'it is not among the readers confirmed on the reference tree: the partial table now reaches a new '
+                      'consumer and its answers depend on the query order' % (r, memo),
+                      sample='%s reads %s (confirmed reader)' % (r, memo), nontrivial=False)
+
+
 def rule_provisional_memo(repo, res, rule, only_cycle=None):
     cg = get_callgraph(repo)
     sites = memo_sites(repo)
@@ -164,6 +222,7 @@ def run(repo, res):
     # ---- R1 --------------------------------------------------------------------------------
     n = rule_provisional_memo(repo, res, 'C04-R1')
     res.count('memo_sites_in_guarded_extent', n, floor=2)
+    rule_memo_inventory(repo, res, 'C04-R5')
 
     # ---- R2 marker reset on every exit ----------------------------------------------------------
     for p in provs:
